@@ -41,9 +41,11 @@ EmptyVars == [x \in {} |-> Unspec]
 Bind(vars, x, v) == (x :> v) @@ vars
 GlobalFrame == 1
 
+\* syn: the instance's own table of user-defined syntax (keyword -> which definition); abstract: a use of keyword kw
+\* defined by definition k rewrites (kw ARG) to (list 'k)
 InitState == [ctrl |-> Ret(Unspec), kont |-> <<>>,
               frames |-> (GlobalFrame :> [parent |-> 0, vars |-> EmptyVars]),
-              vecs |-> <<>>, out |-> <<>>, status |-> "done", result |-> [k |-> "none"]]
+              vecs |-> <<>>, out |-> <<>>, status |-> "done", result |-> [k |-> "none"], syn |-> EmptyVars]
 
 Fail(s, kind) == [s EXCEPT !.status = "done", !.result = [k |-> "error", kind |-> kind],
                            !.ctrl = Ret(Unspec), !.kont = <<>>]
@@ -219,6 +221,13 @@ EvalStep(s) ==
             IF e.es = <<>> THEN [s EXCEPT !.ctrl = Ret(False)]
             ELSE IF Len(e.es) = 1 THEN [s EXCEPT !.ctrl = Ev(e.es[1], env)]
             ELSE [s EXCEPT !.ctrl = Ev(e.es[1], env), !.kont = Push([k |-> "or", rest |-> Tail(e.es), env |-> env], k)]
+       \* a use (kw ARG) of a keyword: user-defined syntax of THIS instance if there is a definition, else the
+       \* standard meaning (for cond: (cond (#t ARG)) is ARG), else an unbound variable
+       [] e.t = "macrouse" ->
+            IF e.kw \in DOMAIN s.syn
+            THEN [s EXCEPT !.ctrl = Ret(MkList(<<MkSym(s.syn[e.kw])>>))]      \* the template (list 'k): the argument is not evaluated
+            ELSE IF e.kw = "cond" THEN [s EXCEPT !.ctrl = Ev(e.arg, env)]
+            ELSE Fail(s, "Unbound")
        [] e.t \in {"when", "unless"} ->
             [s EXCEPT !.ctrl = Ev(e.c, env),
                       !.kont = Push([k |-> "when", es |-> e.es, neg |-> (e.t = "unless"), env |-> env], k)]
@@ -506,7 +515,10 @@ Step(s) == CASE s.ctrl.m = "eval" -> EvalStep(s)
 
 \* hand one top-level form to the machine; the store (frames, vecs) is whatever earlier forms left
 Submit(s, form) ==
-  IF form.t = "define"
+  IF form.t = "defsyntax"
+  THEN [s EXCEPT !.syn = Bind(@, form.kw, form.k), !.ctrl = Ret(Unspec), !.kont = <<>>, !.out = <<>>,
+                 !.status = "done", !.result = [k |-> "none"]]
+  ELSE IF form.t = "define"
   THEN [s EXCEPT !.ctrl = Ev(form.e, GlobalFrame), !.kont = <<[k |-> "topdef", x |-> form.x]>>,
                  !.out = <<>>, !.status = "run", !.result = [k |-> "none"]]
   ELSE [s EXCEPT !.ctrl = Ev(form, GlobalFrame), !.kont = <<>>, !.out = <<>>, !.status = "run",
